@@ -36,7 +36,7 @@ def run(ck):
     ck.cov["rule"] = ("create_directories: every path shape over components {a, b, ., .., empty} up to 4 (quick) / 5 (thorough), relative and absolute, with trailing separators, "
                       "on 7 pre-existing trees (nothing, partial, file in the way at each depth) and 10 trees with symbolic links (to a directory by relative and absolute target, nested, to a file, dangling, to the parent, self-loop, chain); compared: status, 'is a directory afterwards', second-call status (API) and the "
                       "resulting tree (white-box). file_equals: size pairs around 0 / 512 / page±1 / 3 pages with the differing byte at first, last and page boundaries, hard link, "
-                      "page allocation refused; file/symlink type for 9 file kinds; file_size; canonical_path vs realpath; dir_for_each; descriptor balance on every call")
+                      "page allocation refused (all, only the first, only the second), fstat reporting st_size 0 for either file, the real /proc/version against its copy and an empty file; create_directories with a racing creator (mkdir interposed: the same path made a directory or a file before chosen mkdir calls); a share of all operations with descriptor 0 free; file/symlink type for 9 file kinds; file_size; canonical_path vs realpath; dir_for_each; descriptor balance on every call")
     ck.assumptions += ["permissions, mount points and concurrent modification of the tree are not modelled",
                        "read() returns full pages for regular files"]
     try:
